@@ -13,6 +13,7 @@ type Verdict struct {
 	Outcome    string // observable outcome label (for distinct-outcome statistics)
 	Nontrivial bool   // the mechanism the property is about was exercised in this execution
 	Sample     string // optional description of the case (kept for a few executions)
+	Detail     string // optional long text (panic stack) stored in the replay file
 }
 
 // Violation is a recorded counterexample.
@@ -22,6 +23,7 @@ type Violation struct {
 	Choices []int
 	Cost    int
 	Trace   []string
+	Detail  string
 }
 
 // Opts of one exploration.
@@ -146,7 +148,7 @@ func Explore(cfg Config, o Opts, body func(), check func(r *Result) Verdict) *St
 					stop = true
 					return
 				}
-				st.Violations = append(st.Violations, Violation{Msg: v.Violation, Key: k, Choices: ch, Cost: cost, Trace: tr.Trace})
+				st.Violations = append(st.Violations, Violation{Msg: v.Violation, Key: k, Choices: ch, Cost: cost, Trace: tr.Trace, Detail: detail(v, tr)})
 				if len(keys) >= o.MaxViol {
 					st.Complete = false
 					stop = true
@@ -240,4 +242,11 @@ func SortedOutcomes(m map[string]int) []string {
 	}
 	sort.Strings(ks)
 	return ks
+}
+
+func detail(v Verdict, r *Result) string {
+	if v.Detail != "" {
+		return v.Detail
+	}
+	return r.Panic
 }
